@@ -76,6 +76,9 @@ pub struct Outcome {
     /// probe ids
     pub tree_probe: Vec<(usize, i32)>,
     pub tree_probe2: Vec<(usize, i32)>,
+    /// semantic probe: hover on the marker local of every document (the tree probe reads the text
+    /// the VFS holds, this one reads what the index knows about it)
+    pub sem_probe: Vec<(usize, i32)>,
     pub editor_at_probe: Vec<Option<String>>,
     pub disk_at_probe: Vec<Option<String>>,
     pub probe_start_seq: usize,
@@ -982,6 +985,10 @@ async fn client_main(c: &mut Client, server: tokio::task::JoinHandle<Result<(), 
         let uri = c.uri(d);
         c.send_request(id, "emmy/syntaxTree", Some(json!({"uri": uri})), "probe");
         c.out.tree_probe.push((d, id));
+        let hid = c.next_probe_id;
+        c.next_probe_id += 1;
+        c.send_request(hid, "textDocument/hover", Some(proto::valid_params("textDocument/hover", &uri, 0, 8)), "probe");
+        c.out.sem_probe.push((d, hid));
     }
     // a fresh document needs both write locks; then hover on it
     let fresh_path = c.root.join("zz_probe_fresh.lua");
@@ -999,7 +1006,7 @@ async fn client_main(c: &mut Client, server: tokio::task::JoinHandle<Result<(), 
     c.send_request(fid, "emmy/syntaxTree", Some(json!({"uri": fresh_uri})), "probe");
     c.out.fresh_probe = Some(fid);
 
-    let probe_ids: Vec<i32> = c.out.tree_probe.iter().map(|(_, i)| *i).chain([hid, fid]).collect();
+    let probe_ids: Vec<i32> = c.out.tree_probe.iter().chain(c.out.sem_probe.iter()).map(|(_, i)| *i).chain([hid, fid]).collect();
     let mut all = true;
     for id in probe_ids {
         if !c.await_response(id, 300_000).await {
